@@ -88,6 +88,8 @@ def split(name, entry, functions, **kw):
         k = dict(kw)
         k['defines'] = list(kw.get('defines', [])) + ['CQV_NBLK=%d' % n]
         k['bound'] = 'arena block list of length exactly %d on entry (all block sizes, fill levels <= 2^40, current block, alignment symbolic)' % n
+        if n == 2 and name == 'alloc_aligned_nofail':
+            k.setdefault('tier', 'thorough')   # 290 s
         if n == 3:
             k.setdefault('tier', 'thorough')
             if name == 'alloc_aligned_nofail':
@@ -131,12 +133,12 @@ VALIDATED = set('c19_buffer_' + x for x in (
     'reserve init init_capacity init_wrap init_copy destroy clear resize shrink_to_fit append append_byte append_fill '
     'append_u16_le append_u32_le append_u64_le append_f32_le append_f64_le advance detach swap '
     'reader_init reader_has reader_read reader_read_nz reader_skip reader_read_byte reader_read_u16_le reader_read_u32_le '
-    'reader_read_u64_le reader_read_f32_le reader_read_f64_le').split()) | set('c19_arena_' + x for x in (
-    'alloc_aligned_n1 alloc_aligned_n2 alloc_n1 memdup strndup strdup init destroy reset save_restore').split())
+    'reader_read_u64_le reader_read_f32_le reader_read_f64_le '
+    'contract_reserve contract_append contract_advance contract_use').split()) | set('c19_arena_' + x for x in (
+    'alloc_aligned_n1 alloc_aligned_n2 alloc_aligned_n3 alloc_n1 alloc_n2 alloc_n3 alloc_aligned_nofail_n1 alloc_aligned_nofail_n2 '
+    'calloc calloc_overflow_pow2 memdup strndup strdup init destroy reset save_restore').split())
 NOTES = {
-    'c19_arena_calloc': 'UNDECIDED: SAT times out (300 s) on total / count == size even for 16-bit factors; z3/cvc5 abort on '
-                        'the is_fresh-instrumented program. Not a finding.',
-    'c19_arena_alloc_aligned_nofail_n1': 'ok (30 s) on the unchanged tree; not yet breakage-validated',
+    'c19_arena_alloc_aligned_nofail_n3': 'UNDECIDED: SAT out of memory at 8 GB (238 s), timeout at 14 GB (700 s). n1 (30 s) and n2 (290 s) are ok and validated. Not a finding.',
 }
 for _j in JOBS:
     if _j['name'] in VALIDATED:
